@@ -27,7 +27,12 @@ EPOCH_PERF = [job("$REPO/bucketteer", MOD + "/bucketteer", ["write.go"], sync=Fa
 CHECKS = {
     "C01": {
         "pkg": ".", "harness": MAINKIT + ["main/c01_test.go"], "run": "^TestVerif_C01$",
-        "level": "exploration", "instrument": EPOCH_PERF, "env": {"GOGC": "400"},
+        "level": "exploration", "env": {"GOGC": "400"},
+        "variants": [
+            {"name": "main", "run": "^TestVerif_C01$", "instrument": EPOCH_PERF},
+            {"name": "race", "run": "^TestVerif_C01_Race$", "race": True, "tiers": ["thorough"], "shards": {"thorough": 3, "quick": 3},
+             "harness": MAINKIT + ["main/race_index_test.go"], "instrument": EPOCH_PERF},
+        ],
         "quick": {"shards": 16, "budget_s": 150},
         "thorough": {"shards": 16, "budget_s": 1800},
     },
@@ -56,6 +61,8 @@ CHECKS = {
                                 maprange=True, maprange_only=["epochToTxns"]), ERRGROUP] + EPOCH_PERF},
             {"name": "race", "run": "^TestVerif_C09_Race$", "race": True, "tiers": ["thorough"], "shards": {"thorough": 1, "quick": 1},
              "harness": ["main/kit_test.go", "main/race_test.go"], "instrument": []},
+            {"name": "race-handlers", "run": "^TestVerif_C09_RaceHandlers$", "race": True, "tiers": ["thorough"], "shards": {"thorough": 2, "quick": 2},
+             "harness": MAINKIT + ["main/grpckit_test.go", "main/race_handlers_test.go"], "instrument": EPOCH_PERF},
         ],
         "quick": {"shards": 16, "budget_s": 90},
         "thorough": {"shards": 16, "budget_s": 900},
